@@ -19,8 +19,13 @@ LEVEL_TEXT = (
     "reports no change (changes_refl); a sorted schema differs from the original by no reported change, sorting is "
     "idempotent, keeps roots/description and permutes every list into natural order (sort_only_reorders, sort_idem, "
     "sort_perm, sort_sorted); extending with A and then with B equals extending once with A ++ B for every B satisfying "
-    "ValidExt (extend_extend), hence extend(build(A), B) = build(A ++ B) for every base document with a schema definition "
-    "(extend_eq_build_partial; the full statement is kept as extend_eq_build_full), together with the per-kind merge laws "
+    "ValidExt (extend_extend); extend(build(A), B) = build(A ++ B) for every base document, with or without a schema definition, "
+    "and every extension document satisfying ValidExt and the decidable RootsStable (extend_eq_build; extend_eq_build_partial and "
+    "extend_eq_build_noschema are its two halves), and RootsStable is exact: when build(A ++ B) succeeds the equality holds if and "
+    "only if RootsStable A B (extend_eq_build_iff), and in general iff RootsStable A B or build(A ++ B) fails — then extend fails identically "
+    "(extend_eq_build_exact); the statement without RootsStable (extend_eq_build_full) is refuted in Lean by "
+    "A = `type T {a: Int}`, B = `type Query {q: Int}` (extend_eq_build_full_false, replayed on the implementation: observation O2); "
+    "together with the per-kind merge laws "
     "(extendType_append, buildNamedType_append, extendDirective_append, collect_append); a document without type-system "
     "definitions returns the schema unchanged (extend_noop); a reported change implies different printed definitions "
     "(change_real, via C17's injectivity of printing). The model is tied to extend_schema / lexicographic_sort_schema / "
@@ -36,14 +41,19 @@ LEVEL_NOTE = (
 )
 TECHNIQUE = "Lean 4 proof about an executable model + differential correspondence + metamorphic oracles on the implementation"
 TRUSTED = [
-    "hand-written Lean models Gql/Types/SchemaAst.lean (extendCore = extend_schema_args + map_schema_config), Sort.lean "
+    "hand-written Lean models Gql/Types/SchemaAst.lean (extendCore = extend_schema_args + map_schema_config), SchemaRoots.lean "
+    "(rootsStable: the decidable hypothesis of extend_eq_build), Sort.lean "
     "(lexicographic_sort_schema, natural_comparison_key), Diff.lean (find_schema_changes), tied by the correspondence run",
     "tools/c17_gen.py: generators of base schemas, extension documents and single-edit mutants; content extraction; codec",
 ]
 ASSUMPTIONS = [
     "valid inputs: validate_schema(build(A)) == [], extend_schema accepts B (its SDL validation) and the result validates",
-    "validExt: B defines no type called Query/Mutation/Subscription unless A has an explicit schema definition "
-    "(build_ast_schema infers roots by name for a *document*, extend_schema does not — observation O2 in the report)",
+    "RootsStable (Lean, decidable, hypothesis of extend_eq_build; evaluated by the driver op `rootsstable`): A has a schema definition, or "
+    "for each of Query/Mutation/Subscription: B defines a type of that name only if A does, unless B's `extend schema` names exactly that "
+    "type for the operation; and an `extend schema` naming another type requires that neither document defines the conventional one "
+    "(build_ast_schema infers roots by name for a *document*, extend_schema does not — observation O2 in the report). The implementation's "
+    "validate_sdl accepts documents outside RootsStable; on those the check compares model and implementation (they agree: the roots differ "
+    "on both) and asserts equality of everything except the roots, never extend == build",
     "extensions of built-in scalars are valid against a schema but make A+B an invalid document on its own; for those "
     "documents only extend_schema's own clauses are checked (original unchanged, expected content), not equality with build(A+B)",
     "extensions of *specified* directives (experimental syntax) are honoured by extend_schema and ignored by "
@@ -54,8 +64,10 @@ ASSUMPTIONS = [
 ]
 EXPLANATION = (
     "Theorems: changes_refl, sort_only_reorders, sort_idem, sort_perm, sort_sorted, extend_noop, extend_extend, "
-    "extend_eq_build_partial (+ extend_eq_build_full as the open statement), per-kind merge laws, collect_append, change_real. "
-    "Correspondence: model extend/build/sort/changes/natural order vs the implementation. Oracles: extend == build(A+B) in "
+    "extend_eq_build (+ its halves extend_eq_build_partial / extend_eq_build_noschema, the exact characterisations extend_eq_build_iff / extend_eq_build_exact, and "
+    "extend_eq_build_full_false refuting the statement without RootsStable), per-kind merge laws, collect_append, change_real. "
+    "Correspondence: model extend/build/sort/changes/natural order and the predicate RootsStable vs the implementation, on pairs on both "
+    "sides of RootsStable. Oracles: extend == build(A+B) (for root-stable B) in "
     "text, content and changes; original untouched (deep snapshot of every attribute of every type and directive incl. the "
     "specified ones, object identities, introspection result, and the library's global specified_directives / "
     "specified_scalar_types / introspection_types before and after each extend and each sort); no-op returns the same object; sort reports "
@@ -64,6 +76,7 @@ EXPLANATION = (
 )
 
 CORPUS_DIR = fw.VERIF / "corpus" / "C19"
+ROOT_BASE = 10_000_000  # case indices from here on are root-stability cases (run_root_case)
 NOOP_DOCS = ["{ a }", "query Q { a { b } }", "mutation M { x } subscription S { y }"]
 
 
@@ -536,6 +549,154 @@ def run_ext_case(rep, seed, idx, lines, meta):
         rep.samples.append({"case": case["case"], "B": B[:500]})
 
 
+# ----------------------------------------------------------------------------- root stability (observation O2)
+
+CONV = {"query": "Query", "mutation": "Mutation", "subscription": "Subscription"}
+ROOT_VARIANTS = ["new-conv-type", "new-conv-type+xschema-conv", "new-conv-type+xschema-other", "xschema-other",
+                 "explicit-block+new-conv-type", "no-query-base+type-Query"]
+ROOT_EXPECT_STABLE = {"new-conv-type": False, "new-conv-type+xschema-conv": True, "new-conv-type+xschema-other": False,
+                      "xschema-other": True, "explicit-block+new-conv-type": True, "no-query-base+type-Query": False}
+
+
+def _plain_object(name, rng, refs=()):
+    fs = [{"name": n, "desc": None, "args": [], "type": ["named", rng.choice(["Int", "String", "ID"] + list(refs))], "depr": None}
+          for n in rng.sample(["m", "n1", "n2", "do_it", "x"], rng.randint(1, 3))]
+    return {"kind": "object", "name": name, "desc": None, "interfaces": [], "fields": fs}
+
+
+def run_root_case(rep, seed, idx, lines, meta):
+    """(A, B) pairs on both sides of `RootsStable` (hypothesis of `extend_eq_build`): B brings a type
+    called Query / Mutation / Subscription that A lacks, with or without a schema extension naming it,
+    over bases with and without a schema definition.  Model vs implementation on every pair; the
+    property's relation extend == build(A+B) only where the Lean predicate holds."""
+    import graphql as G
+    from graphql.utilities import extend_schema
+    from graphql.validation.validate import validate_sdl
+
+    rng = random.Random(f"c19root:{seed}:{idx}")
+    variant = ROOT_VARIANTS[idx % len(ROOT_VARIANTS)]
+    case = {"case": [seed, idx, "root"], "variant": variant}
+    explicit = variant == "explicit-block+new-conv-type"
+    ir = None
+    if variant == "no-query-base+type-Query":
+        # a base document that builds but has no query root (not a valid *schema*; a valid document)
+        tn = rng.choice(["T", "Thing", "query", "Query2"])
+        A = g.sdl_type(_plain_object(tn, rng), rng) + "\n\n" + rng.choice(["", "enum E {\n  A\n  B\n}\n", "scalar S\n"])
+        op = "query"
+    else:
+        for _ in range(40):
+            try:
+                cand = g.gen_ir(rng)
+            except Exception:  # noqa: BLE001
+                continue
+            free = [o for o in ("mutation", "subscription") if cand[o] is None and CONV[o] not in {t["name"] for t in cand["types"]}]
+            if free and (explicit or not g.needs_schema_block(cand)):
+                ir = cand
+                break
+        if ir is None:
+            rep.stats["root_base_not_found"] = rep.stats.get("root_base_not_found", 0) + 1
+            return
+        op = rng.choice(free)
+        if explicit:
+            A = "\n\n".join([g.sdl_schema_block(ir, rng, force=True)] + [g.sdl_directive(d, rng) for d in ir["directives"]] + [g.sdl_type(t, rng) for t in ir["types"]]) + "\n"
+        else:
+            A = "\n\n".join([g.sdl_directive(d, rng) for d in ir["directives"]] + [g.sdl_type(t, rng) for t in ir["types"]]) + "\n"
+    conv = CONV[op]
+    try:
+        a = g.build(A)
+    except Exception:  # noqa: BLE001
+        rep.stats["base_rejected"] = rep.stats.get("base_rejected", 0) + 1
+        return
+    if variant != "no-query-base+type-Query" and G.validate_schema(a):
+        rep.stats["base_invalid"] = rep.stats.get("base_invalid", 0) + 1
+        return
+    if (a.ast_node is not None) != explicit:
+        rep.stats["root_base_not_found"] = rep.stats.get("root_base_not_found", 0) + 1
+        return
+    # extension items: random ones of the ordinary generator (without its own schema extensions) + the root items
+    items = []
+    if ir is not None and rng.random() < 0.6:
+        try:
+            items = [it for it in g.gen_extension(rng, ir, explicit)[0] if it[0] not in ("xschema", "xbuiltin")]
+        except Exception:  # noqa: BLE001
+            items = []
+    used = {t["name"] for t in (ir["types"] if ir else [])} | {it[1]["name"] for it in items if it[0] == "type"}
+    other = next(n for n in ("Other", "Writes", "RootX", "RootY", "RootZ") if n not in used)
+    root_items = []
+    if variant in ("new-conv-type", "explicit-block+new-conv-type", "no-query-base+type-Query"):
+        root_items = [("type", _plain_object(conv, rng))]
+    elif variant == "new-conv-type+xschema-conv":
+        root_items = [("type", _plain_object(conv, rng)), ("xschema", {op: conv})]
+    elif variant == "new-conv-type+xschema-other":
+        root_items = [("type", _plain_object(conv, rng)), ("type", _plain_object(other, rng)), ("xschema", {op: other})]
+    elif variant == "xschema-other":
+        root_items = [("type", _plain_object(other, rng)), ("xschema", {op: other})]
+    for it in root_items:
+        items.insert(rng.randint(0, len(items)), it)
+    B = g.items_to_sdl(items, rng)
+    case = dict(case, A=A, B=B)
+    docA, docB = g.parse_sdl(A), g.parse_sdl(B)
+    if validate_sdl(docB, a):
+        rep.stats["extension_rejected"] = rep.stats.get("extension_rejected", 0) + 1
+        return
+    guard = Unchanged(a, with_introspection=False)
+    try:
+        e = extend_schema(a, docB)
+        c = g.build(A + "\n" + B)
+    except G.GraphQLError:
+        rep.stats["extension_rejected"] = rep.stats.get("extension_rejected", 0) + 1
+        return
+    except Exception as ex:  # noqa: BLE001
+        rep.failures.append(Failure("extend-raises", "extend_schema / build_schema raises a non-GraphQL error", case, f"{type(ex).__name__}: {ex}"[:300], "a schema or GraphQLError", "C19 extend"))
+        return
+    guard.check(rep, case, "extend", "C19 extend_pure")
+    rep.evaluations += 1
+    rep.nontrivial += 1
+    stable = ROOT_EXPECT_STABLE[variant]
+    rep.stats["root_cases"] = rep.stats.get("root_cases", 0) + 1
+    rep.stats["root_" + variant] = rep.stats.get("root_" + variant, 0) + 1
+    a_ir, eir, cir = g.schema_ir(a), g.schema_ir(e), g.schema_ir(c)
+    roots_e = [eir[o] for o in CONV]
+    roots_c = [cir[o] for o in CONV]
+    if stable:
+        # inside the property: the relation itself, on the implementation
+        rep.stats["root_stable"] = rep.stats.get("root_stable", 0) + 1
+        if eir != cir:
+            from checks.c17 import component_of, first_diff
+
+            path = first_diff(cir, eir)
+            rep.failures.append(Failure("extend-vs-build-" + component_of(path), "extending build(A) with B differs from building A and B together at " + str(path), case, path, "same content", "C19 extend_eq_build"))
+        elif G.print_schema(e) != G.print_schema(c):
+            rep.failures.append(Failure("extend-vs-build-text", "extend(build(A), B) prints differently from build(A+B)", case, G.print_schema(e)[:800], G.print_schema(c)[:800], "C19 extend_eq_build"))
+        ch = changes_of(e, c) + changes_of(c, e)
+        if ch:
+            rep.failures.append(Failure("extend-vs-build-changes-" + ch[0][0], "changes detected between extend(build(A), B) and build(A+B)", case, ch[:5], [], "C19 extend_eq_build"))
+    else:
+        # outside the property (observation O2): no alarm; recorded, and compared with the model below
+        rep.stats["root_unstable"] = rep.stats.get("root_unstable", 0) + 1
+        rep.stats["root_unstable_roots_differ" if roots_e != roots_c else "root_unstable_roots_equal"] = rep.stats.get("root_unstable_roots_differ" if roots_e != roots_c else "root_unstable_roots_equal", 0) + 1
+        if dict(eir, query=None, mutation=None, subscription=None) != dict(cir, query=None, mutation=None, subscription=None):
+            # everything except the roots is C19-1's per-kind merge: must agree on either side
+            from checks.c17 import component_of, first_diff
+
+            path = first_diff(cir, eir)
+            rep.failures.append(Failure("extend-vs-build-" + component_of(path), "outside the roots, extending build(A) with B differs from building A and B together at " + str(path), case, path, "same content apart from the roots", "C19 extendType_append / buildNamedType_append"))
+    # correspondence: the model on both sides of the condition, and the condition itself
+    sa = g.sx_schema(a_ir)
+    lines.append(f"extend {sa} {g.sx_doc(docB)}")
+    meta.append(("eq", "extend_schema (root case)", case, "ok " + g.sx_schema(eir) + " new"))
+    lines.append("build " + g.sx_doc(g.parse_sdl(A + "\n" + B)))
+    meta.append(("eq", "build_schema(A+B) (root case)", case, "ok " + g.sx_schema(cir)))
+    lines.append("build " + g.sx_doc(docA))
+    meta.append(("eq", "build_schema(A) (root case)", case, "ok " + sa))
+    lines.append(f"rootsstable {g.sx_doc(docA)} {g.sx_doc(docB)}")
+    meta.append(("eq", "RootsStable vs the generator's side of the condition", case, "T" if stable else "F"))
+    lines.append(f"rootsstable {g.sx_doc(docA)} {g.sx_doc(docB)}")
+    meta.append(("eq", "RootsStable vs (extend == build) on the implementation", case, "T" if eir == cir else "F"))
+    if len(rep.samples) < 4 and idx < 6:
+        rep.samples.append({"case": case["case"], "variant": variant, "stable": stable, "B": B[:300], "roots_extend": roots_e, "roots_build": roots_c})
+
+
 NAT_NAMES = ["a1", "a01", "a10", "a9", "a2b", "a2", "a", "A1", "a1_", "a1b10", "a1b9", "a001", "a1a", "_1", "_", "b", "a00", "a0", "x10y2", "x10y10", "x9y100", "T2", "T10", "T02", "t1", "Z_1", "A007", "A7", "A07x", "A7x"]
 
 
@@ -575,7 +736,10 @@ def _work(args):
         run_corpus(rep, lines, meta)
     for seed, idx in cases:
         try:
-            run_ext_case(rep, seed, idx, lines, meta)
+            if idx >= ROOT_BASE:
+                run_root_case(rep, seed, idx - ROOT_BASE, lines, meta)
+            else:
+                run_ext_case(rep, seed, idx, lines, meta)
         except Exception:  # noqa: BLE001
             import traceback
 
@@ -594,20 +758,36 @@ def run_corpus(rep, lines, meta):
         text = p.read_text()
         A, _, B = text.partition("\n# ---- extension ----\n")
         case = {"corpus": p.name}
+        observation = "observation" in p.name  # pairs outside RootsStable (O2): recorded, never an alarm
         try:
             a = g.build(A)
         except Exception as e:  # noqa: BLE001
             rep.notes.append(f"corpus {p.name}: base does not build: {type(e).__name__}")
             continue
-        if G.validate_schema(a):
+        invalid = bool(G.validate_schema(a))
+        if invalid and not observation:
             continue
         rep.stats["corpus"] = rep.stats.get("corpus", 0) + 1
-        check_sort_and_self(rep, a, case, lines, meta, universe_of(g.schema_ir(a)))
+        if not invalid:
+            check_sort_and_self(rep, a, case, lines, meta, universe_of(g.schema_ir(a)))
         if B.strip():
-            e = extend_schema(a, g.parse_sdl(B))
+            docA, docB = g.parse_sdl(A), g.parse_sdl(B)
+            e = extend_schema(a, docB)
             c = g.build(A + "\n" + B)
-            if G.print_schema(e) != G.print_schema(c) and "observation" not in p.name:
+            if G.print_schema(e) != G.print_schema(c) and not observation:
                 rep.failures.append(Failure("extend-vs-build-text", "extend(build(A), B) prints differently from build(A+B)", case, G.print_schema(e)[:600], G.print_schema(c)[:600], "C19 extend_eq_build"))
+            a_ir, eir, cir = g.schema_ir(a), g.schema_ir(e), g.schema_ir(c)
+            if eir != cir and not observation:
+                rep.failures.append(Failure("extend-vs-build-content", "extend(build(A), B) differs from build(A+B)", case, None, "same content", "C19 extend_eq_build"))
+            rep.evaluations += 1
+            lines.append(f"extend {g.sx_schema(a_ir)} {g.sx_doc(docB)}")
+            meta.append(("eq", "extend_schema (corpus)", case, "ok " + g.sx_schema(eir) + " new"))
+            lines.append("build " + g.sx_doc(g.parse_sdl(A + "\n" + B)))
+            meta.append(("eq", "build_schema(A+B) (corpus)", case, "ok " + g.sx_schema(cir)))
+            lines.append(f"rootsstable {g.sx_doc(docA)} {g.sx_doc(docB)}")
+            meta.append(("eq", "RootsStable vs the corpus file's side of the condition", case, "F" if observation else "T"))
+            lines.append(f"rootsstable {g.sx_doc(docA)} {g.sx_doc(docB)}")
+            meta.append(("eq", "RootsStable vs (extend == build) on the implementation (corpus)", case, "T" if eir == cir else "F"))
 
 
 def explore(ctx) -> Report:
@@ -616,7 +796,10 @@ def explore(ctx) -> Report:
     if ctx.escalate and ctx.tier == "quick":
         n = 240
     n = int(os.environ.get("VERIF_CASES", "0") or 0) or n
-    cases = [(ctx.seed, i) for i in range(n)]
+    n_root = 48 if ctx.tier == "quick" else 480
+    cases = [(ctx.seed, i) for i in range(n)] + [(ctx.seed, ROOT_BASE + i) for i in range(n_root)]
+    rng = random.Random(f"c19order:{ctx.seed}")
+    rng.shuffle(cases)  # spread the two kinds of cases over the workers
     chunks = fw.chunked(cases, fw.WORKERS * 2)
     drv = DRIVER if ctx.driver else None
     reps = fw.pmap(_work, [(c, drv, k == 0) for k, c in enumerate(chunks)])
@@ -628,7 +811,11 @@ def explore(ctx) -> Report:
         "(new types of every kind, new directives, extensions adding fields/interfaces/members/values/input fields/"
         "specifiedBy/operation types/directive deprecations to any subset of types, several extensions per type, shuffled "
         "definition order) accepted by extend_schema and valid afterwards; each base and each extended schema is also sorted "
-        "and compared with itself; three single-edit mutants per base (45 edit kinds, round-robin), compared in both directions. non-trivial = extension with >= 2 items"
+        "and compared with itself; three single-edit mutants per base (45 edit kinds, round-robin), compared in both directions; "
+        "root-stability pairs (6 templates round-robin, both sides of RootsStable: B brings `type Query/Mutation/Subscription` that A lacks, "
+        "alone / with `extend schema` naming it / naming another type / over a base with a schema block / over a base without query root; "
+        "model vs implementation for extend, build(A), build(A+B) and for the predicate itself; extend == build asserted only where RootsStable holds). "
+        "non-trivial = extension with >= 2 items, or a root-stability pair"
     )
     return rep
 
@@ -636,6 +823,7 @@ def explore(ctx) -> Report:
 def search(ctx, rep) -> Report:
     fw.use_repo()
     cases = [(ctx.seed, 100000 + i) for i in range(600 if ctx.tier == "quick" else 3000)]
+    cases += [(ctx.seed, ROOT_BASE + 100000 + i) for i in range(120 if ctx.tier == "quick" else 600)]
     chunks = fw.chunked(cases, fw.WORKERS * 2)
     reps = fw.pmap(_work, [(c, None, False) for c in chunks])
     out = Report()
@@ -652,7 +840,10 @@ def replay(ctx, payload) -> Report:
     lines, meta = [], []
     if isinstance(inp, dict) and "case" in inp:
         seed, idx = inp["case"][:2]
-        run_ext_case(rep, seed, idx, lines, meta)
+        if len(inp["case"]) > 2 and inp["case"][2] == "root":
+            run_root_case(rep, seed, idx, lines, meta)
+        else:
+            run_ext_case(rep, seed, idx, lines, meta)
     elif isinstance(inp, dict) and "corpus" in inp:
         run_corpus(rep, lines, meta)
     compare(rep, DRIVER if ctx.driver else None, lines, meta)
